@@ -498,6 +498,7 @@ func c08Opts() gen.Opts {
 func c08OptsFor(seed uint64) gen.Opts {
 	o := c08Opts()
 	o.Focus = gen.FocusFor(seed)
+	o.ParamNamedLocals = simrt.NewRNG(seed^0x9a4a).Intn(4) == 0
 	return o
 }
 
